@@ -57,6 +57,9 @@ def gen_case(rng, tier):
     kind, lw = gen_weights(rng, n)
     method = rng.choice(["systematic", "categorical"])
     mode = "sweep" if method == "systematic" else ("tree" if n <= 4 and rng.random() < 0.6 else "sampled")
+    # earlier resampling steps of the same process, with other particle counts and methods (history)
+    c["warm"] = [{"n": rng.choice([2, 3, 5, 8, 16]), "method": rng.choice(["systematic", "categorical"])}
+                 for _ in range(rng.choice([0, 0, 1, 2]))]
     c.update({"n": n, "wkind": kind, "logw": [None if x == -math.inf else round(x, 4) for x in lw],
               "method": method, "mode": mode, "sseed": rng.randint(0, 2**30),
               "lme0": round(rng.uniform(-3, 3), 3), "grid": 65 if tier == "quick" else 257})
@@ -117,6 +120,11 @@ def run_case(case):
     n = case["n"]
     evals = 0
     try:
+        for i, wm in enumerate(case.get("warm", [])):
+            wcase = dict(case, n=wm["n"], logw=[round(-0.37 * (j % 4), 2) for j in range(wm["n"])])
+            wparts = build_particles(wcase)
+            run_scripted(lambda: resample(wparts, method=wm["method"]), gfi.RefScript(case["sseed"] + 17 + i))
+            probes["warm_steps"] = probes.get("warm_steps", 0) + 1
         parts = build_particles(case)
         lw = np.asarray(parts.log_weights, dtype=np.float64)
         m = np.max(lw)
@@ -222,4 +230,8 @@ def shrink(case):
     if case["grid"] > 9:
         c = copy.deepcopy(case)
         c["grid"] = 9
+        yield c
+    for i in range(len(case.get("warm", []))):
+        c = copy.deepcopy(case)
+        del c["warm"][i]
         yield c
